@@ -54,7 +54,7 @@ def n_is_store(mods):
     return 'store' in mods
 
 
-_PH = re.compile(r'\{([A-Za-z_][A-Za-z0-9_.]*)\}')
+_PH = re.compile(r'\{([A-Za-z_][A-Za-z0-9_.]*!?)\}')
 
 
 class Contract:
@@ -74,7 +74,7 @@ class Contract:
         self.loops = loops or {}
         self.modifies = list(modifies)
         self.maps = maps            # pure: name of the list-lifted spec function
-        self.raises = list(raises)
+        self.raises = raises if isinstance(raises, dict) else {r: None for r in raises}
         self.notes = notes
         self.ghost = ghost or {}
         self.frame = frame
@@ -168,10 +168,24 @@ class Executor:
                 base, attr = key.split('.', 1)
                 if base in st.env and attr in st.env[base].meta:
                     return st.env[base].meta[attr]
+            if key in getattr(self, 'entry_params', {}):
+                # a parameter name in a contract always denotes the value at entry (parameters are mutable locals)
+                v = self.entry_params[key]
+                return v.e if v.e is not None else ''
+            if key.endswith('!') and key[:-1] in st.env:
+                return st.env[key[:-1]].e
             if key in st.env:
-                return st.env[key].e
+                v = st.env[key]
+                if v.sort == 'PyList' and all(i.sort == 'Term' for i in v.meta['items']):
+                    out = 'nil'
+                    for i in reversed(v.meta['items']):
+                        out = '(cons %s %s)' % (i.e, out)
+                    return out
+                return v.e
             if key in st.ghost:
                 return st.ghost[key]
+            if re.fullmatch(r'loop\d+_exhausted', key):
+                return 'false'
             raise OutOfSubset('contract placeholder {%s} not bound on this path (%s)' % (key, self.qualname))
         return _PH.sub(sub, tmpl)
 
@@ -205,6 +219,7 @@ class Executor:
         if args.vararg:
             n = args.vararg.arg
             st.env[n] = self.mk_param(st, n, pmap[n])
+        self.entry_params = {n: v for n, v in st.env.items()}
         for r in self.c.requires:
             st.assume(self.fmt(r, st))
         if self.theory:
@@ -218,6 +233,8 @@ class Executor:
 
     def mk_param(self, st, n, sort):
         sub = None
+        if sort.startswith('Opt:'):
+            sort = sort.split(':')[1]
         if ':' in sort:
             sort, sub = sort.split(':', 1)
         if sort == 'Term':
@@ -251,7 +268,7 @@ class Executor:
         c = self.c
         if self.is_gen:
             return self.gen_exit(st, 'end')
-        if c.kind == 'iterfn':
+        if c.kind in ('iterfn', 'iterfn-fx'):
             if val.sort != 'Iter':
                 self.oblige(st, 'returns_iterator', 'false', 'safety')
                 return
@@ -259,6 +276,13 @@ class Executor:
             self.oblige(st, 'ensures.created_now', AND(EQ('(h_cs %s)' % val.e, st.comp['store']),
                                                       EQ(st.comp['store'], st.entry['store']),
                                                       EQ('(select %s %s)' % (st.comp['ist'], val.e), 'FRESH')))
+            self.extra_ensures(st, val)
+            return
+        if c.kind == 'handlefn':
+            if val.sort != 'Iter':
+                self.oblige(st, 'returns_iterator', 'false', 'safety')
+                return
+            self.oblige(st, 'ensures.fresh', EQ('(select %s %s)' % (st.comp['ist'], val.e), 'FRESH'))
             self.extra_ensures(st, val)
             return
         if c.kind in ('pure', 'fn'):
@@ -291,6 +315,9 @@ class Executor:
         if self.is_gen and exc.cls in ('GeneratorExit', 'Thrown'):
             return self.gen_exit(st, 'closed' if exc.cls == 'GeneratorExit' else 'thrown')
         if exc.cls in self.c.raises:
+            cond = self.c.raises[exc.cls] if isinstance(self.c.raises, dict) else None
+            if cond:
+                self.oblige(st.fork().tag('raise:' + exc.cls), 'raises.only_when', self.fmt(cond, st), 'post')
             if self.theory:
                 self.theory.on_raise(self, st, exc)
             return
@@ -379,6 +406,9 @@ class Executor:
             if isinstance(v, Exc):
                 k.exc(st2, v)
                 continue
+            if self.theory:
+                v2 = self.theory.adjust_assign(self, tgt, v, st2)
+                v = v2 if v2 is not None else v
             for st3, r in self.assign(tgt, v, st2):
                 if isinstance(r, Exc):
                     k.exc(st3, r)
@@ -644,8 +674,11 @@ class Executor:
         (ownership rule (i)): leaving the loop in any way drops and thereby finalises it."""
         n = self.loop_ord[id(s)]
 
+        outer_active = tuple(st.ghost.get('active', ()))
+
         def drop(st2):
             self.iter_close(st2, h)
+            st2.ghost['active'] = outer_active
             return st2
 
         for st2, out in self.iter_next(st.tag('for%d' % n), h):
@@ -656,8 +689,11 @@ class Executor:
                 k.exc(st2, out)
                 continue
             for st3, r in self.assign(s.target, out, st2.tag('one')):
+                st3.ghost['active'] = outer_active + (h.e,)
+
                 def again(st4):
                     for st5, out2 in self.iter_next(st4, h):
+                        st5.ghost['active'] = outer_active
                         if isinstance(out2, Exc) and out2.cls == 'StopIteration':
                             k.normal(st5)
                         elif isinstance(out2, Exc):
@@ -819,6 +855,8 @@ class Executor:
         st.assume('(> %s %s)' % (nh, h))
         st.comp['nexth'] = nh
         st.comp['ist'] = '(store %s %s FRESH)' % (st.comp['ist'], h)
+        if self.theory:
+            self.theory.on_new_handle(self, st, h)
         return SV('Iter', h)
 
     def iter_next(self, st, h):
@@ -970,6 +1008,15 @@ class Executor:
             if r is not None:
                 return r
         return SV('PyList', None, {'items': items})
+
+    def ev_Dict(self, e, st):
+        if not e.keys:
+            return [(st, SV('PyDict', None, {'items': []}))]
+        if self.theory:
+            r = self.theory.ev_Dict(self, e, st)
+            if r is not None:
+                return r
+        raise OutOfSubset('dict literal', e)
 
     def ev_Tuple(self, e, st):
         outs = self.ev_List(e, st)
@@ -1340,7 +1387,10 @@ class Executor:
                 return self.iter_next(st, h)
         if name in ('YPSuccess', 'YPFail') and not args and self.modname == 'engine':
             res = '(SOk %s)' % st.comp['store'] if name == 'YPSuccess' else 'SFail'
-            return [(st, self.new_handle(st, res, name))]
+            h = self.new_handle(st, res, name)
+            if self.theory and 'owned' in st.comp:
+                st.assume(EQ('(h_ans %s)' % h.e, '(ASemidet %s)' % res))
+            return [(st, h)]
         if self.modname == 'engine' and name == 'Functor' and len(args) == 2 and args[0].sort == 'Str' \
                 and args[1].sort == 'TList':
             return [(st, SV('Term', '(TFun %s %s)' % (args[0].e, args[1].e)))]
@@ -1381,9 +1431,15 @@ class Executor:
             # dynamic dispatch = case split on the constructor; a non-IUnifiable receiver has no method
             self.oblige(st, 'safety.method_receiver.' + meth, NOT('((_ is TConst) %s)' % base.e), 'safety')
             outs = []
+            from . import core as _core
+            mod = _core.module(self.modname)
             for ctor, cls in self.TERM_CLASSES:
                 cname = '%s.%s.%s' % (self.modname, cls, meth)
                 if cname not in self.reg:
+                    if ('%s.%s' % (cls, meth)) not in mod.functions:
+                        # the class has no such method: AttributeError unless the receiver is never of this class
+                        self.oblige(st, 'safety.method_receiver.%s.not_%s' % (meth, cls), NOT('((_ is %s) %s)' % (ctor, base.e)), 'safety')
+                        continue
                     raise OutOfSubset('no contract for %s' % cname, e)
                 b = st.fork().assume('((_ is %s) %s)' % (ctor, base.e)).tag(cls)
                 outs.extend(self.apply_contract(e, self.reg[cname], [base] + args, b))
@@ -1396,10 +1452,18 @@ class Executor:
 
     def apply_contract(self, e, c, args, st):
         """Modular call: the caller sees the callee's contract only."""
-        if len(args) != len(c.params):
+        params = list(c.params)
+        if len(args) < len(params) and all(ps.startswith('Opt:') for _, ps in params[len(args):]):
+            defaults = [ps.split(':', 2) for _, ps in params[len(args):]]
+            for d in defaults:
+                dv = d[2] if len(d) > 2 else 'None'
+                args = args + [NONE if dv == 'None' else (TRUE if dv == 'True' else FALSE if dv == 'False' else SV('Int', dv))]
+        if len(args) != len(params):
             raise OutOfSubset('arity of call to %s' % c.name, e)
         ex = {}
         for (pn, psort), a in zip(c.params, args):
+            if psort.startswith('Opt:'):
+                psort = psort.split(':')[1]
             want = psort.split(':')[0]
             if want == 'Str' and a.sort == 'Str':
                 pass
@@ -1435,8 +1499,17 @@ class Executor:
         if c.kind in ('iterfn', 'semidet-gen'):
             h = self.new_handle(st, self.fmt_c(c.spec, ex), c.name.split('.')[-1])
             return [(st, h)]
-        if c.kind == 'fn':
+        if c.kind in ('fn', 'handlefn'):
             # a function with effects: havoc what it may modify, assume its postcondition
+            outs_exc = []
+            for cls, cond in c.raises.items():
+                b = st.fork().tag('raises:' + cls)
+                if cond:
+                    b.assume(self.fmt_c(cond, ex))
+                outs_exc.append((b, Exc(cls)))
+            for cls, cond in c.raises.items():
+                if cond:
+                    st.assume(NOT(self.fmt_c(cond, ex)))
             for n in c.modifies:
                 sort = dict(self.comps)[n]
                 st.comp[n] = self.fresh(sort, n)
@@ -1444,13 +1517,18 @@ class Executor:
             if n_is_store(c.modifies):
                 ex['S'] = st.comp['store']
             res = None
-            if c.ret and c.ret != 'None':
+            if c.kind == 'handlefn':
+                res = self.theory.new_nd_handle(self, st, None, c.name.split('.')[-1])
+                ex['result'] = res.e
+            elif c.ret and c.ret != 'None':
                 r = self.fresh(self.smt_sort(c.ret), 'r')
                 ex['result'] = r
                 res = self.mk_ret(c.ret, r, st)
             for en in c.ensures:
                 st.assume(self.fmt_c(en, ex))
-            return [(st, res if res is not None else NONE)]
+            if self.theory:
+                self.theory.after_call(self, st)
+            return [(st, res if res is not None else NONE)] + outs_exc
         if self.theory:
             r = self.theory.apply_contract(self, e, c, args, ex, st)
             if r is not None:
